@@ -522,20 +522,31 @@ def rule_direct_solver(rep: Report, repo: Repo):
         from .paths import enum_paths
         from .resolve import rtext, run_block
         # innermost loop over degenerate groups
-        loops = [n for n in ast.walk(gg[0]) if isinstance(n, ast.For) and "_group_close_energies" in norm(n.iter)]
+        from .resolve import env_at as _ea7, resolved as _res7
+        loops = [n for n in ast.walk(gg[0]) if isinstance(n, ast.For) and "_group_close_energies" in norm(_res7(n.iter, _ea7(n, gg[0])))]
         if len(loops) != 1:
             raise AnalysisError(R, "grouped_greens_functions: loop over energy groups not found")
         gl = loops[0]
+        gl_iter = _res7(gl.iter, _ea7(gl, gg[0]))
         # the enclosing loop gives the names of (energies, right kernel basis, left kernel basis) of one subspace
         ol = getattr(gl, "_parent", None)
         if not (isinstance(ol, ast.For) and isinstance(ol.target, ast.Tuple) and len(ol.target.elts) == 3 and isinstance(ol.iter, ast.Call)
-                and call_name(ol.iter) == "zip" and [norm(a) for a in ol.iter.args] == ["eigenvalues", "right_kernel_subspaces", "left_kernel_subspaces"]
-                and isinstance(gl.target, ast.Name)):
+                and call_name(ol.iter) == "zip" and [norm(a) for a in ol.iter.args] == ["eigenvalues", "right_kernel_subspaces", "left_kernel_subspaces"]):
             raise AnalysisError(R, "grouped_greens_functions: loop over (energies, right kernels, left kernels) of the subspaces not understood")
         EN, RK, LK = (norm(e) for e in ol.target.elts)
-        GRP = gl.target.id
-        ok_iter = norm(gl.iter) == f"_group_close_energies({EN}, eigenvalue_atol)"
-        rep.check(ok_iter, R, f"{MOD}::solve_sylvester_direct::grouped_greens_functions groups the block's energies with eigenvalue_atol", norm(gl.iter), loc(gl))
+        # the group variable: the loop target itself, or the zip component that iterates the groups
+        if isinstance(gl.target, ast.Name):
+            GRP, grp_iter = gl.target.id, gl_iter
+        elif isinstance(gl.target, ast.Tuple) and isinstance(gl_iter, ast.Call) and call_name(gl_iter) == "zip" \
+                and len(gl_iter.args) == len(gl.target.elts):
+            cand = [(t, a) for t, a in zip(gl.target.elts, gl_iter.args) if "_group_close_energies" in norm(a) and isinstance(t, ast.Name)]
+            if len(cand) != 1:
+                raise AnalysisError(R, "grouped_greens_functions: which loop variable is the energy group is not clear")
+            GRP, grp_iter = cand[0][0].id, cand[0][1]
+        else:
+            raise AnalysisError(R, "grouped_greens_functions: loop over energy groups not understood")
+        ok_iter = norm(grp_iter) == f"_group_close_energies({EN}, eigenvalue_atol)"
+        rep.check(ok_iter, R, f"{MOD}::solve_sylvester_direct::grouped_greens_functions groups the block's energies with eigenvalue_atol", norm(grp_iter), loc(gl))
         for flag in (True, False):
             def atom(n, flag=flag):
                 t = norm(n)
